@@ -11,7 +11,7 @@ from mc.ref import hexdump as rhex
 PROPERTY = 'C18'
 LEVEL = 'exploration'
 ENGINE = 'E1'
-TECHNIQUE = ('bounded-exhaustive enumeration of the dispatch space (65 module-name-forming creators x 7 components x 6 sub-types x '
+TECHNIQUE = ('bounded-exhaustive enumeration of the dispatch space (65 module-name-forming creators x 7 components x 10 sub-types x '
              '4 versions, UD and ED; SRC creators x reference-code types) with a recording sys.meta_path finder that serves a '
              'fixture module for whatever name the decoder asks for; containment: all behaviour assignments (5^3) x all orders '
              'of three sections served by two modules, followed by a well-behaved PEL; shipped m2c00 over sub-types x versions x '
@@ -23,7 +23,7 @@ LEVEL_TEXT = ('The finder sees every import the decoder attempts and the fixture
               'section order, and by decoding a well-behaved PEL afterwards.')
 LEVEL_NOTE = ('creator bytes that cannot form a module name are covered by C04 (hex-dump fallback); parser modules are Python '
               'modules served from memory, equivalent to modules on sys.path for the import system')
-RULE = ('dispatch: creators [A-Za-z0-9_] x components {0000,00AB,2000,2C00,E500,ABCD,FFFF} x sub-types {0,1,72,73,84,255} x '
+RULE = ('dispatch: creators [A-Za-z0-9_] x components {0000,00AB,2000,2C00,E500,ABCD,FFFF} x sub-types {0,1,2,3,4,5,72,73,84,255} x '
         'versions {0,1,2,255} x {UD, ED} x plug-ins {on, off}; SRC: 65 creators x 5 reference-code types x word counts; osrc '
         'forwarding for 6 component bytes + BC; containment: behaviours {ok, raise, ImportError in call, None, null}^3 x 6 orders '
         '+ SRC parser behaviours; m2c00: 3+2 sub-types x 4 versions x 4 payloads x direct/parsePEL. Non-trivial: a parser module '
@@ -33,7 +33,7 @@ ASSUMPTIONS = ['"returns nothing" covers None, JSON null and the empty string']
 import string
 NAME_CREATORS = string.ascii_uppercase + string.ascii_lowercase + string.digits + '_' + '\xe9\xdc'   # + two Latin-1 letters (creator bytes >= 0x80)
 COMPS = [0x0000, 0x00AB, 0x2000, 0x2C00, 0xE500, 0xABCD, 0xFFFF]
-SUBS = [0, 1, 72, 73, 84, 255]
+SUBS = [0, 1, 2, 3, 4, 5, 72, 73, 84, 255]
 VERS = [0, 1, 2, 255]
 PAYLOAD = bytes(range(0x41, 0x41 + 13))
 SENT = {'t': 'MT', 'mtm': 'SENTINEL', 'sn': 'S'}
